@@ -235,7 +235,15 @@ def run(ctx):
 
             def sym_call(s, c2, call, ts):
                 if callee_name(call) == 'range_insert_new':
-                    s.calls.append((s.value(call.a[4], ts), s.value(call.a[5], ts), pstr(call.a[7]), call,
+                    # argument positions are read off the callee's parameter list (by name: start, end, and the
+                    # chunk parameter by type), so a reordered signature is followed
+                    rin = prog.need_func('range_insert_new')
+                    pos = dict((p_.op, i_) for i_, p_ in enumerate(rin.params))
+                    chunkp = [i_ for i_, p_ in enumerate(rin.params) if 'zckChunk' in (p_.t or '')]
+                    ck.require('start' in pos and 'end' in pos and chunkp,
+                               'range_insert_new: parameters start / end / chunk not found')
+                    a_ = call.a[1:]
+                    s.calls.append((s.value(a_[pos['start']], ts), s.value(a_[pos['end']], ts), pstr(a_[chunkp[0]]), call,
                                     'hdr' in ts))
                 return ts
 
